@@ -38,7 +38,11 @@ def git(cwd, *args, check=True):
 
 
 def read_wt(root):
-    cfg = re.search(r'current_version = "([^"]*)"', open(os.path.join(root, "bumpver.toml")).read()).group(1)
+    text = open(os.path.join(root, "bumpver.toml")).read()
+    cfg = re.search(r'current_version = "([^"]*)"', text).group(1)
+    second = re.search(r"^# release (\S+)$", text, re.M)
+    if second and second.group(1) != cfg:
+        cfg = "%s (but the second occurrence in the config file says %s)" % (cfg, second.group(1))
     a = open(os.path.join(root, "a.txt")).read()
     return {"cfg": cfg, "ver": re.search(r"ver=(\S+)", a).group(1), "pep": re.search(r"pep=(\S*)", a).group(1)}
 
@@ -57,8 +61,13 @@ def replay(job):
         git(root, "init", "-q", "-b", "main")
         pep0 = v2version.format_version(v2version.parse_version_info(prj["v0"], prj["pattern"]), v2patterns.normalize_pattern(prj["pattern"], "{pep440_version}"))
         proj = project.Project(root, vcs=None)
-        proj.write("bumpver.toml", project.bumpver_toml(prj["v0"], prj["pattern"], [("bumpver.toml", ['current_version = "{version}"']), ("a.txt", ["ver={version}", "pep={pep440_version}"])],
-                                                        commit=True, tag=True, push=False, extra={"tag_scope": ([s["scope"] for s in hist if s["act"] == "update"] or ["default"])[0]}))
+        # every third history configures its files under another spelling of their paths (./name); the config file then carries a second occurrence
+        respell = idx % 3 == 1
+        pre = "./" if respell else ""
+        proj.write("bumpver.toml", project.bumpver_toml(prj["v0"], prj["pattern"], [(pre + "bumpver.toml", ['current_version = "{version}"'] + (["# release {version}"] if respell else [])),
+                                                                                    (pre + "a.txt", ["ver={version}", "pep={pep440_version}"])],
+                                                        commit=True, tag=True, push=False, extra={"tag_scope": ([s["scope"] for s in hist if s["act"] == "update"] or ["default"])[0]})
+                   + ("\n# release %s\n" % prj["v0"] if respell else ""))
         proj.write("a.txt", "intro\nver=%s\npep=%s\n" % (prj["v0"], pep0))
         proj.write("other.txt", "tracked, carries no version pattern\n")
         git(root, "add", "-A"); git(root, "commit", "-q", "-m", "init")
